@@ -166,6 +166,7 @@ func (w *vpShortWriter) Write(p []byte) (int, error) {
 // process: after a write that failed at any offset (failing writer) the next
 // component is written as the same single well-formed value and reads back.
 func VP_C17_nbt_history() {
+	vp.PoolMode(1) // pooled scratch space is always handed out again (dirty)
 	first := vpMkMessage(1)
 	var probe bytes.Buffer
 	_, err := first.WriteTo(&probe)
